@@ -140,6 +140,38 @@ func judgeFwd(rep *lib.Report, ln fwdLine, haveModel bool) {
 				rep.Violate("fwd:not-dispatched", fmt.Sprintf("%s: directive %q did not reach the operand's method exactly once (%d)", name, f, o1.Calls), kase)
 				continue
 			}
+			// what was issued: the flag characters of the directive itself ('0' is dropped next to '-' or a negative
+			// star width, which sets '-': the rule of the fork; under fmt 1.23 Flag('0') stays set, not compared)
+			issued := ""
+			body := strings.TrimRight(f[1:], string(rune(ln.V)))
+			for _, c := range "+-# 0" {
+				has := false
+				for _, d := range body {
+					if strings.ContainsRune("+-# 0", d) {
+						if d == c {
+							has = true
+						}
+					} else {
+						break
+					}
+				}
+				if c == '-' && ln.W == "*-4" {
+					has = true
+				}
+				if has {
+					issued += string(c)
+				}
+			}
+			if strings.Contains(issued, "-") {
+				issued = strings.ReplaceAll(issued, "0", "")
+			}
+			seen := o1.Flags
+			if ei == 0 && strings.Contains(seen, "-") {
+				seen = strings.ReplaceAll(seen, "0", "")
+			}
+			if seen != issued {
+				rep.Violate("fwd:flags-observed", fmt.Sprintf("%s: directive %q carries flags %q but the operand's method observes %q", name, f, issued, o1.Flags), kase)
+			}
 			if o1.Verb != rune(ln.V) {
 				rep.Violate("fwd:verb", fmt.Sprintf("%s: directive %q delivered verb %q", name, f, o1.Verb), kase)
 			}
